@@ -20,13 +20,14 @@ def unhex(s):
 
 
 class Gen:
-    def __init__(self, rng, max_depth=3, big_tuples=True, arith=True, consts=True, families=("uniform",)):
+    def __init__(self, rng, max_depth=3, big_tuples=True, arith=True, consts=True, families=("uniform",), arrays=False):
         self.rng = rng
         self.max_depth = max_depth
         self.big_tuples = big_tuples
         self.arith = arith
         self.consts = consts
         self.families = families
+        self.arrays = arrays
         self.pool = []
         self.features = set()
 
@@ -135,11 +136,22 @@ class Gen:
             elif r < 0.42 and self.consts:
                 sub = self.const()
                 self.features.add("const-in-collection")
+            elif r < 0.52 and self.arrays:
+                # af.Array: elements assigned in an order unrelated to index order
+                shape = rng.choice([[2], [3], [2, 2], [2, 3], [1, 2, 2]])
+                count = 1
+                for d_ in shape:
+                    count *= d_
+                elems = [self.member() for _ in range(count)]
+                order = list(range(count))
+                rng.shuffle(order)
+                sub = {"t": "array", "shape": shape, "elems": elems, "order": order}
+                self.features.add("array")
             else:
                 sub = self.model(depth - 1)
             items.append([key, sub])
         # a copy() of an earlier component in which only a fixed value differs (same priors)
-        if self.consts and rng.random() < 0.2:
+        if self.consts and rng.random() < 0.4:
             cands = []
             for j, (k, sub) in enumerate(items):
                 if sub["t"] == "model":
@@ -175,6 +187,8 @@ class Gen:
                 return dict(e, kw={k: ren(v) for k, v in e["kw"].items()}, extra=[[k, ren(v)] for k, v in e["extra"]])
             if e["t"] == "coll":
                 return dict(e, items=[[k, ren(v)] for k, v in e["items"]])
+            if e["t"] == "array":
+                return dict(e, elems=[ren(m) for m in e["elems"]])
             return e   # const, copy
         return {"pool": pool, "root": ren(root), "features": sorted(self.features)}
 
@@ -202,7 +216,15 @@ def expected_tree(e, names=None):
         return {"t": "model", "cls": e["cls"], "attrs": attrs}
     if t == "coll":
         return {"t": "coll", "attrs": [[k, expected_tree(sub)] for k, sub in resolve_copies(e)["items"]]}
+    if t == "array":
+        keys = array_keys(e["shape"])
+        return {"t": "array", "shape": e["shape"], "attrs": [[keys[j], expected_tree(e["elems"][j])] for j in e["order"]]}
     raise ValueError(t)
+
+
+def array_keys(shape):
+    import itertools
+    return ["prior_" + "_".join(map(str, idx)) for idx in itertools.product(*[range(d) for d in shape])]
 
 
 def resolve_copies(coll):
@@ -236,7 +258,9 @@ def same_tree(exp, got):
     if t == "model":
         return exp["cls"] == got["cls"] and len(exp["attrs"]) == len(got["attrs"]) and all(
             a[0] == b[0] and same_tree(a[1], b[1]) for a, b in zip(exp["attrs"], got["attrs"]))
-    if t == "coll":
+    if t in ("coll", "array"):
+        if t == "array" and exp["shape"] != got["shape"]:
+            return False
         return len(exp["attrs"]) == len(got["attrs"]) and all(
             a[0] == b[0] and same_tree(a[1], b[1]) for a, b in zip(exp["attrs"], got["attrs"]))
     return False
